@@ -3,12 +3,12 @@ package main
 // C12: CSS parsing, minification, lowering and bundling preserve the cascade (oracle: Chrome 147).
 
 import (
-	"time"
 	"fmt"
 	"os"
 	"path/filepath"
 	"strings"
 	"sync"
+	"time"
 
 	"github.com/evanw/esbuild/pkg/api"
 )
@@ -58,9 +58,13 @@ var c12Wraps = []c12Wrap{
 	{"supports-unknown-syntax", func(r string) string { return "@supports unknown-fn(x) { " + r + " }" }},
 	{"layer-block", func(r string) string { return "@layer a { " + r + " }" }},
 	{"layer-anon", func(r string) string { return "@layer { " + r + " }" }},
-	{"layer-order", func(r string) string { return "@layer b, a; @layer a { " + r + " } @layer b { .a { color: purple; margin: 9px } }" }},
+	{"layer-order", func(r string) string {
+		return "@layer b, a; @layer a { " + r + " } @layer b { .a { color: purple; margin: 9px } }"
+	}},
 	{"nested-in-a", func(r string) string { return ".a { " + r + " }" }},
-	{"container", func(r string) string { return "div { container-type: inline-size } @container (min-width: 100px) { " + r + " }" }},
+	{"container", func(r string) string {
+		return "div { container-type: inline-size } @container (min-width: 100px) { " + r + " }"
+	}},
 	{"media-nested", func(r string) string { return "@media screen { @media (min-width: 500px) { " + r + " } }" }},
 	{"unknown-at-rule", func(r string) string { return "@unknown-rule x { " + r + " } " + r }},
 	{"keyframes-before", func(r string) string { return "@keyframes spin { from { color: red } to { color: blue } } " + r }},
